@@ -259,7 +259,7 @@ def parse_output(text):
             tag = t[1]
             if tag == "meta":
                 step.obs["meta"] = dict(x.split("=", 1) for x in t[2:])
-            elif tag in ("limits", "conformal", "pidx", "nidx", "polyi", "polyq", "hsp_pntr", "hsp_indx", "inside", "estaniso"):
+            elif tag in ("limits", "conformal", "pidx", "nidx", "apipidx", "apinidx", "polyi", "polyq", "hsp_pntr", "hsp_indx", "inside", "estaniso"):
                 step.obs[tag] = [int(v) for v in t[3:]]
             elif tag in ("bytes", "written"):
                 step.obs[tag] = (int(t[2]), t[3])
@@ -271,14 +271,14 @@ def parse_output(text):
     return cases
 
 
-def run_scripts(drv, lines, workdir, name="script", timeout=900, env=None):
+def run_scripts(drv, lines, workdir, name="script", timeout=900, env=None, case_timeout=10):
     """write the script, run the driver, return (rc, parsed cases, raw stdout, stderr)"""
     import os
     os.makedirs(workdir, exist_ok=True)
     sp = os.path.join(workdir, name + ".txt")
     with open(sp, "w") as fh:
         fh.write("\n".join(lines) + "\n")
-    rc, so, se = vlib.run([drv, sp, workdir], timeout=timeout, env=env)
+    rc, so, se = vlib.run([drv, sp, workdir, str(case_timeout)], timeout=timeout, env=env)
     with open(os.path.join(workdir, name + ".out"), "w") as fh:
         fh.write(so)
     return rc, parse_output(so), so, se
